@@ -134,6 +134,8 @@ def run(tier: str) -> Run:
         s = eff.summaries[fq]
         bad = {}
         for tok, m in s.mutates.items():
+            if not tok.startswith('p:'):
+                continue  # module-level state: whether it reaches what is handed out is R2 / R3; it is not an argument
             root = tok[2:].split('.')[0].split('[')[0]
             if (fq in ALLOWED_MUTATORS or fq.endswith('.setter')) and root == 'self':
                 continue  # documented mutators of their own object; a property setter is one by definition
